@@ -121,6 +121,7 @@ func c07Scenario(r *vf.Run, t *testing.T, id string, rng *rand.Rand) {
 		for i := 0; i < k; i++ {
 			led.Opened = append(led.Opened, streamOf[i])
 		}
+		sentSoFar := map[uint32]int64{}
 		win := map[uint32]int64{} // the script's own view of each stream window (to build exact-to-max increments)
 		curInit := w0
 		setSeq := 0
@@ -142,9 +143,20 @@ func c07Scenario(r *vf.Run, t *testing.T, id string, rng *rand.Rand) {
 					fail("more-data-than-body", fmt.Sprintf("%s: stream %d carried %d bytes more than the body", where, sid, -owed))
 					return
 				}
+				// END_STREAM needs no window: once every byte of the body is out and the client is quiescent, the frame
+				// that carries it must be out too, also when the last byte spent a window exactly
+				if owed == 0 && st.Ended[sid] == 0 {
+					fail("end-stream-withheld", fmt.Sprintf("%s: all %d body bytes of the upload on stream %d (body mode %d) have been sent and the client is quiescent, but END_STREAM has not been sent (stream window %d, connection window %d)", where, sizes[i], sid, modes[i], st.Streams[sid], st.Conn))
+					return
+				}
+				if st.Ended[sid] > 1 {
+					fail("end-stream-twice", fmt.Sprintf("%s: END_STREAM was sent %d times on stream %d", where, st.Ended[sid], sid))
+					return
+				}
 			}
 			for id2, w := range st.Streams {
 				win[id2] = w
+				sentSoFar[id2] = st.Sent[id2]
 			}
 			win[0] = st.Conn
 		}
@@ -156,7 +168,7 @@ func c07Scenario(r *vf.Run, t *testing.T, id string, rng *rand.Rand) {
 			var burst []byte
 			at := e.P.NFrames()
 			for a := 1 + rng.Intn(3); a > 0; a-- {
-				switch rng.Intn(8) {
+				switch rng.Intn(9) {
 				case 0, 1:
 					sid := streamOf[rng.Intn(k)]
 					inc := int64(1 + rng.Intn(40000))
@@ -214,6 +226,24 @@ func c07Scenario(r *vf.Run, t *testing.T, id string, rng *rand.Rand) {
 					}
 					curInit = v
 					settingsChanged = true
+				case 7: // grant exactly what one upload still owes, on its stream and on the connection: its last byte spends both windows
+					i := rng.Intn(k)
+					sid := streamOf[i]
+					owedNow := int64(sizes[i]) - sentSoFar[sid]
+					if owedNow <= 0 {
+						continue
+					}
+					if d := owedNow - win[sid]; d > 0 && win[sid]+d <= 1<<31-1 {
+						burst = append(burst, rt.WindowUpdate(sid, uint32(d))...)
+						actions = append(actions, rt.Action{At: at, Kind: "wu", Stream: sid, Val: d})
+						win[sid] += d
+					}
+					if d := owedNow - win[0]; d > 0 && win[0]+d <= 1<<31-1 {
+						burst = append(burst, rt.WindowUpdate(0, uint32(d))...)
+						actions = append(actions, rt.Action{At: at, Kind: "wu", Stream: 0, Val: d})
+						win[0] += d
+					}
+					kinds += "x"
 				case 6:
 					v := []int64{16384, 16385, 65536, 1<<24 - 1}[rng.Intn(4)]
 					setSeq++
